@@ -104,7 +104,8 @@ def insert (st : TState) (s : Nat) (i : Int) (u : Nat) : TState :=
 def extend (st : TState) (s : Nat) (us : List Nat) : TState :=
   setChildren (setParents st us (some s)) s (st.children s ++ us)
 
-/-- `l[i] = u` : orphan the current item, store, adopt the new one -/
+/-- `l[i] = u` : store, orphan the replaced item, adopt the new one (the store does not touch parents, so the
+    model orphans first) -/
 def setItem (st : TState) (s : Nat) (i : Int) (u : Nat) : TState × Out :=
   let l := st.children s
   match normIdx l.length i with
@@ -140,19 +141,19 @@ def delSlice (st : TState) (s : Nat) (i j : Option Int) : TState :=
   setChildren st1 s (l.take lo ++ l.drop hi)
 
 /-- `l[i:j:k] = us` with an explicit step.  `k = 0`: `self[i]` raises ValueError before anything happens;
-    `k = 1` is the plain slice assignment; otherwise (extended slice) the current items are orphaned FIRST and
-    then `list.__setitem__` raises ValueError when the sizes differ (the orphaning is not undone). -/
+    `k = 1` is the plain slice assignment; otherwise (extended slice) `list.__setitem__` raises ValueError when the
+    sizes differ - the code stores first and touches parents only afterwards, so a failed assignment is a no-op. -/
 def setSliceExt (st : TState) (s : Nat) (i j : Option Int) (k : Int) (us : List Nat) : TState × Out :=
   if k = 0 then (st, .valueError)
   else if k = 1 then (setSlice st s i j us, .ok)
   else
     let l := st.children s
     let pos := slicePositions l.length i j k
-    let st1 := setParents st (itemsAt l pos) none
     if us.length = pos.length then
+      let st1 := setParents st (itemsAt l pos) none
       let st2 := setChildren st1 s (replaceAt pos us l)
       (setParents st2 us (some s), .ok)
-    else (st1, .valueError)
+    else (st, .valueError)
 
 /-- `del l[i:j:k]` with an explicit step -/
 def delSliceExt (st : TState) (s : Nat) (i j : Option Int) (k : Int) : TState × Out :=
